@@ -1,0 +1,63 @@
+// Copyright (c) The Thanos Community Authors.
+// Licensed under the Apache License 2.0.
+
+package model
+
+import (
+	"github.com/efficientgo/core/errors"
+	"github.com/prometheus/prometheus/model/labels"
+)
+
+// ErrDuplicateLabelSet is the error of the Prometheus engine for an instant
+// vector in which two elements have the same labels, which happens when an
+// operation drops the label that told two series apart.
+var ErrDuplicateLabelSet = errors.New("vector cannot contain metrics with the same labelset")
+
+// DuplicateLabelCheck finds step vectors in which two samples belong to series
+// with the same labels. Series with equal labels may well exist side by side;
+// it is an error only when they have a sample at the same step.
+type DuplicateLabelCheck struct {
+	// groups maps a series ID to the ID shared by all series with its labels.
+	// It is nil when all series have distinct labels.
+	groups []int
+	seen   []uint64
+	epoch  uint64
+}
+
+func NewDuplicateLabelCheck(series []labels.Labels) *DuplicateLabelCheck {
+	ids := make(map[string]int, len(series))
+	groups := make([]int, len(series))
+	for i, s := range series {
+		key := s.String()
+		id, ok := ids[key]
+		if !ok {
+			id = len(ids)
+			ids[key] = id
+		}
+		groups[i] = id
+	}
+	if len(ids) == len(series) {
+		return &DuplicateLabelCheck{}
+	}
+	return &DuplicateLabelCheck{groups: groups, seen: make([]uint64, len(ids))}
+}
+
+// Check returns ErrDuplicateLabelSet if two samples of the step vector belong
+// to series with the same labels.
+func (c *DuplicateLabelCheck) Check(vector StepVector) error {
+	if c == nil || c.groups == nil {
+		return nil
+	}
+	c.epoch++
+	for _, id := range vector.SampleIDs {
+		if id >= uint64(len(c.groups)) {
+			continue
+		}
+		group := c.groups[id]
+		if c.seen[group] == c.epoch {
+			return ErrDuplicateLabelSet
+		}
+		c.seen[group] = c.epoch
+	}
+	return nil
+}
